@@ -870,7 +870,19 @@ func runCase(w *tr.Writer, seed uint64, idx int, focus string) {
 			if srvLn != nil {
 				go func() { c, err := srvLn.Accept(); ach <- acc{c, err} }()
 			}
-			gc, err := cli.Dial(dialNet, dialAddr)
+			var gc gnet.Conn
+			var err error
+			if srvLn != nil && rnd.Chance(35) {
+				// Client.Enroll: the caller's own net.Conn is handed over (its descriptor is duplicated, the
+				// original is closed by the framework's worker)
+				var nc net.Conn
+				if nc, err = net.Dial(dialNet, dialAddr); err == nil {
+					gc, err = cli.Enroll(nc)
+					w.Hist("client-enroll")
+				}
+			} else {
+				gc, err = cli.Dial(dialNet, dialAddr)
+			}
 			if err != nil {
 				rec.Fail("client-dial", "error", err.Error())
 				continue
